@@ -53,9 +53,15 @@ func c19Probes(t *rapid.T, f *schema.Field, fd protoreflect.FieldDescriptor) []p
 					out = append(out, protoreflect.ValueOfUint32(uint32(x)))
 				}
 			case protoreflect.FloatKind:
-				out = append(out, protoreflect.ValueOfFloat32(float32(x)))
+				// the neighbour of the largest finite value is an infinity: non-finite values travel as
+				// strings, which is C06's subject, not a question about the published constraint
+				if !math.IsInf(float64(float32(x)), 0) {
+					out = append(out, protoreflect.ValueOfFloat32(float32(x)))
+				}
 			case protoreflect.DoubleKind:
-				out = append(out, protoreflect.ValueOfFloat64(x))
+				if !math.IsInf(x, 0) {
+					out = append(out, protoreflect.ValueOfFloat64(x))
+				}
 			}
 		}
 		switch fd.Kind() {
@@ -236,7 +242,14 @@ func c19Eval(c *core.Ctx, t *rapid.T, val *oas.Validator, s *schema.Schema, onPr
 			if !present {
 				return "", nil // zero value: not on the wire
 			}
-			ver, verr := val.ValidateSchema(docID, prop, toPlain(inst))
+			// a float/double property is a binary64 number: an integer literal such as 72057594037927940 is
+			// the shortest decimal of 2^56 and denotes that double, so numeric keywords are read as doubles
+			// (an arbitrary-precision reading would compare 72057594037927940 with 72057594037927936)
+			judged := prop
+			if f.Kind.IsFloat() {
+				judged = asDoubles(prop)
+			}
+			ver, verr := val.ValidateSchema(docID, judged, toPlain(inst))
 			if verr != nil {
 				return "", verr
 			}
@@ -345,6 +358,38 @@ func rulesJSON(r *schema.Rules) string {
 
 // toPlain converts model trees (json.Number) into plain JSON-marshalable values.
 func toPlain(v any) any { return v }
+
+// asDoubles returns a copy of a schema in which every numeric literal is rewritten in a form that JSON
+// readers take as a binary64 value.
+func asDoubles(v any) any {
+	switch t := v.(type) {
+	case map[string]any:
+		out := map[string]any{}
+		for k, x := range t {
+			switch k {
+			case "const", "enum", "minimum", "maximum", "exclusiveMinimum", "exclusiveMaximum", "oneOf", "anyOf", "allOf", "items", "not":
+				out[k] = asDoubles(x)
+			default:
+				out[k] = x
+			}
+		}
+		return out
+	case []any:
+		out := make([]any, len(t))
+		for i, x := range t {
+			out[i] = asDoubles(x)
+		}
+		return out
+	case json.Number:
+		if f, err := strconv.ParseFloat(string(t), 64); err == nil && !math.IsInf(f, 0) {
+			s := strconv.FormatFloat(f, 'e', -1, 64)
+			return json.Number(s)
+		}
+		return t
+	default:
+		return v
+	}
+}
 
 func runC19(c *core.Ctx) error {
 	if err := runPinned(c, Registry["C19"]); err != nil {
